@@ -29,6 +29,7 @@ type Engine struct {
 	srcCache map[string][]string
 	fnIDs    map[*ssa.Function]int
 	typeCache map[string]types.Type
+	typeIDs   map[string]int
 }
 
 func loadEngine(repo string) (*Engine, error) {
@@ -209,6 +210,19 @@ func (e *Engine) keyOf(fn *ssa.Function) string {
 		return k
 	}
 	return fn.String()
+}
+
+func (e *Engine) typeID(t types.Type) Term {
+	k := typeStr(t)
+	if e.typeIDs == nil {
+		e.typeIDs = map[string]int{}
+	}
+	id, ok := e.typeIDs[k]
+	if !ok {
+		id = 800000000 + len(e.typeIDs)
+		e.typeIDs[k] = id
+	}
+	return fmt.Sprint(id)
 }
 
 func (e *Engine) funcID(fn *ssa.Function) Term {
@@ -467,9 +481,32 @@ func (e *Engine) verifyFunction(key string, ct *Contract) (res *FuncResult) {
 		}
 	}
 	for _, fv := range fn.FreeVars {
-		s := vc.symbolic(st, "fv_"+fv.Name(), fv.Type(), true)
+		var s Sym
+		if pt, ok := types.Unalias(fv.Type()).Underlying().(*types.Pointer); ok && e.sortOf(pt.Elem()) != "" || func() bool {
+			if pt, ok := types.Unalias(fv.Type()).Underlying().(*types.Pointer); ok {
+				_, isSl := pt.Elem().Underlying().(*types.Slice)
+				return isSl
+			}
+			return false
+		}() {
+			// captured variable of the enclosing function: a local cell no callee can reach
+			pt := types.Unalias(fv.Type()).Underlying().(*types.Pointer)
+			a := adv{"L:fv." + fv.Name(), nil, pt.Elem()}
+			vc.store(st, a, vc.symbolic(st, "fv_"+fv.Name(), pt.Elem(), true))
+			s = a
+		} else {
+			s = vc.symbolic(st, "fv_"+fv.Name(), fv.Type(), true)
+		}
 		f.env[fv] = s
-		vc.topVars[fv.Name()] = tv{s, fv.Type()}
+		if a, ok := s.(adv); ok {
+			// captured variable: specs name its current value
+			if vc.freeCells == nil {
+				vc.freeCells = map[string]adv{}
+			}
+			vc.freeCells[fv.Name()] = a
+		} else {
+			vc.topVars[fv.Name()] = tv{s, fv.Type()}
+		}
 	}
 	vc.entry = st.clone()
 	// requires
